@@ -596,6 +596,19 @@ def check_compile_expr(ctx, nts):
     if fi is None:
         raise Undecided('anchor deferred.compile_expr not found')
     ctx.unit('functions')
+    # the compiler written as a generator: compile_expr only appends what G(root_expr, level) yields,
+    # G yields the emissions (arity, operation, ...) and delegates to itself with ``yield from``
+    COMPILERS = {'compile_expr'}
+    drv = [n for n in fi.node.body if isinstance(n, ast.For)]
+    if len(drv) == 1 and isinstance(drv[0].iter, ast.Call) and isinstance(drv[0].iter.func, ast.Name) and drv[0].iter.args and canon(drv[0].iter.args[0]) == fi.node.args.args[0].arg:
+        g = repo.module_funcs.get(('deferred', drv[0].iter.func.id))
+        appends = [c for c in ast.walk(drv[0]) if isinstance(c, ast.Call) and isinstance(c.func, ast.Attribute) and c.func.attr == 'append']
+        tnames = [x.id for x in ast.walk(drv[0].target) if isinstance(x, ast.Name)]
+        if g is not None and any(isinstance(y, (ast.Yield, ast.YieldFrom)) for y in ast.walk(g.node)) and len(appends) == 1 \
+                and [canon(a) for a in appends[0].args][:2] == tnames[:2] and not any(isinstance(x, (ast.If, ast.Continue, ast.Break)) for x in ast.walk(drv[0])):
+            ctx.holds(rule, fi, 'compile_expr: for (arity, op, ...) in %s(root, level): ops.append(arity, op, ...)' % g.node.name, 'appends every emission of the generator, in order', fi.node.lineno, clause='c')
+            COMPILERS.add(g.node.name)
+            fi = g
     R = fi.node.args.args[0].arg
     kinds = set()
 
@@ -647,8 +660,10 @@ def check_compile_expr(ctx, nts):
     def calls_of(p):
         out = []
         for e in p.all_effects():
-            if e.kind == 'call' and call_name(e.call) == 'compile_expr' and e.call.args:
+            if e.kind == 'call' and call_name(e.call) in COMPILERS and e.call.args:
                 out.append(('compile', canon(e.call.args[0]), e))
+            elif e.kind == 'yield' and isinstance(getattr(e.node, 'value', None), ast.Yield) and isinstance(e.value, ast.Tuple) and len(e.value.elts) >= 2:
+                out.append(('emit', (arity(e.value.elts[0]), e.value.elts[1]), e))
             elif e.kind == 'call' and isinstance(e.call.func, ast.Attribute) and e.call.func.attr == 'append' and canon(e.call.func.value).startswith(('ops', 'Operations()', '(ops')) or \
                     (e.kind == 'call' and isinstance(e.call.func, ast.Attribute) and e.call.func.attr == 'append' and len(e.call.args) >= 3):
                 out.append(('emit', (arity(e.call.args[0]), e.call.args[1]), e))
@@ -693,7 +708,7 @@ def check_compile_expr(ctx, nts):
                 if ok:
                     lp = loops[0]
                     it = canon(lp.sub['iter'])
-                    inner = [c for bp in lp.sub['body'] for c in bp.effects if c.kind == 'call' and call_name(c.call) == 'compile_expr']
+                    inner = [c for bp in lp.sub['body'] for c in bp.effects if c.kind == 'call' and call_name(c.call) in COMPILERS]
                     item = '<item of %d>' % lp.sub['phi']
                     if which == 'list':
                         ok = it == '%s[1]' % R and len(inner) == 1 and canon(inner[0].call.args[0]) == item and emits[0][0][0] == 'len(%s[1])' % R
@@ -943,6 +958,11 @@ def check_exec(ctx):
                 and 'compile_expr(root_expr).as_list()' in unparse(cc.node)
         if ok:
             ctx.holds(rule, cc, 'lambda pkt, *v, **k: exec_compiled_expr(pkt, args, compile_expr(expr).as_list(), *v, **k)', 'the callable runs the compiled program on the packet', cc.node.lineno, clause='g')
+        elif len(rets) == 1 and isinstance(rets[0].value, ast.Lambda) and isinstance(rets[0].value.body, ast.Call) and call_name(rets[0].value.body) == 'exec_compiled_expr' \
+                and '.as_list()' in unparse(cc.node) and second_empty:
+            # the evaluator is run on a program taken from as_list(): how that program is produced
+            # (compile_expr expanded in place, another helper) is not followed here
+            ctx.undecided(rule, cc, 'compile_expr_into_callable', 'cannot see that the program handed to the evaluator is compile_expr(root_expr).as_list()', cc.node.lineno, clause='g')
         else:
             ctx.violation(rule, cc, 'compile_expr_into_callable', 'the returned callable does not run the compiled program of this expression on the packet', cc.node.lineno, clause='g')
 
